@@ -436,6 +436,10 @@ def run_check(spec, tier='quick', seed=0, jobs=None, keep=False, verbose=True):
         def is_kernel(t):
             if getattr(spec, 'NATIVE', True) is False:
                 return True
+            if t.opts.get('sort_lemma'):
+                # an obligation stated by the executor on the real comparator closure: there is no native harness for
+                # it; the counterexample (three field descriptors) is confirmed by concrete re-execution
+                return True
             return t.pkg in kernel_pkgs and not t.root.startswith(native_prefixes or ('\0',))
         # kernel-mode harnesses (blocking code): confirm by concrete re-execution in the interpreter
         for pkg, items in list(by_pkg.items()):
